@@ -106,15 +106,28 @@ def run(ctx, eng):
                 dirty = True
     inc = [cm.show0(e.value) for p in cm.normal_paths(paths) for e in p.events
            if e.kind == 'write' and e.attr == 'current_window_size']
+    # the overflow test is the only refusal (a delta may be negative and may
+    # take the window below zero: RFC 7540 6.9.2), and every accepting path
+    # moves the window
+    other = sorted({'/'.join(sorted(cm.ev_callee_names(p.exc['via_call'])))
+                    if p.exc.get('via_call') is not None else 'a call'
+                    for p in paths if p.exit == 'raise' and
+                    cm.explicit_raise(p) is None and
+                    'FlowControlError' in p.exc['names']})
+    every = all(sum(1 for e in p.events if e.kind == 'write' and
+                    e.attr == 'current_window_size') == 1
+                for p in cm.normal_paths(paths))
     ok = raised == [cm.mk_aff_key('>', {'self.current_window_size': 1,
                                         'size': 1}, -LIMIT)] and \
-        not dirty and inc and \
+        not dirty and inc and not other and every and \
         all(s == 'self.current_window_size + size' for s in inc)
     ctx.ob('ARITH.open', f4.qual, 'overflow iff window > 2**31-1, checked '
            'before the write', ok,
            'FlowControlError iff current + size > 2**31-1 and nothing is '
-           'written on that path (found raise %s, dirty=%s, writes %s)'
-           % (raised, dirty, inc), node=f4.node)
+           'written on that path; no other refusal; every accepting path '
+           'adds size (found raise %s, dirty=%s, writes %s%s)'
+           % (raised, dirty, inc, ', also refuses through %s' % other
+              if other else ''), node=f4.node)
     mx = [e for p in cm.normal_paths(paths) for e in p.events
           if e.kind == 'write' and e.attr == 'max_window_size']
     ok = bool(mx) and all(
